@@ -1,6 +1,7 @@
 package checks
 
 import (
+	"bytes"
 	"fmt"
 	"time"
 
@@ -220,4 +221,51 @@ func msgFromJSON(j msgJSON) (ref.Layout, *ref.Msg) {
 		m.Args = append(m.Args, b)
 	}
 	return layoutByName(j.Layout), m
+}
+
+// heldCodec keeps what one codec evaluation handed out - the encoded bytes, the decoded object and the buffers that were
+// passed in - so that the NEXT evaluation can confirm that nothing of it changed while other values were encoded and
+// decoded (a result that is only correct until the next call is not the value the caller was given).
+type heldCodec struct {
+	L       ref.Layout
+	M       *ref.Msg
+	src     tq.EncoderDecoder // the value MarshalBinary was called on
+	enc     []byte            // what MarshalBinary returned
+	encCopy []byte
+	in      []byte // what UnmarshalBinary was given
+	inCopy  []byte
+	dec     tq.EncoderDecoder // what UnmarshalBinary filled
+	decWant *ref.Msg
+}
+
+func holdCodec(l ref.Layout, m *ref.Msg, src tq.EncoderDecoder, enc, in []byte, dec tq.EncoderDecoder) *heldCodec {
+	h := &heldCodec{L: l, M: m, src: src, enc: enc, encCopy: append([]byte{}, enc...), in: in, inCopy: append([]byte{}, in...), dec: dec}
+	if dec != nil {
+		h.decWant = fromImpl(dec)
+	}
+	return h
+}
+
+// changed reports what of the held evaluation is no longer what it was.
+func (h *heldCodec) changed() string {
+	if h == nil {
+		return ""
+	}
+	if !bytes.Equal(h.enc, h.encCopy) {
+		return fmt.Sprintf("the bytes returned by an earlier MarshalBinary changed at offset %d during a later encode/decode", firstDiff(h.enc, h.encCopy))
+	}
+	if !bytes.Equal(h.in, h.inCopy) {
+		return fmt.Sprintf("the input buffer of an earlier UnmarshalBinary was modified at offset %d", firstDiff(h.in, h.inCopy))
+	}
+	if h.dec != nil {
+		if d := sameMsg(h.decWant, fromImpl(h.dec)); d != "" {
+			return "a value decoded earlier changed during a later encode/decode: " + d
+		}
+	}
+	if h.src != nil {
+		if d := sameMsg(h.M, fromImpl(h.src)); d != "" {
+			return "the value handed to an earlier MarshalBinary changed: " + d
+		}
+	}
+	return ""
 }
